@@ -17,8 +17,9 @@ Library side (zbus/src/object_server, K1; K3 in the thorough tier):
 Generated code (#[interface] expansions: fdo interfaces in K1, the fixtures of zbus/tests and of the unit
 tests in K4) — one instance per method arm, keyed by the handler it calls:
   G-ROUTE      `call`/`call_mut` are a string match whose arms return Async or RequiresMut and whose `_` arm
-               returns NotFound; #RequiresMut arms of `call` = #arms of `call_mut`; every Async arm boxes a
-               coroutine that calls exactly one handler; no handler is wired to two arms.
+               returns NotFound; the member names `call` answers RequiresMut for = the names `call_mut` matches;
+               no name is matched twice; every Async arm boxes a coroutine that calls exactly one handler on the
+               captured interface object; no handler is wired to two arms.
   G-COUNT      in a method arm: at most one reply on any path, at least one on every path that avoids the
                NoReplyExpected true edge, none after that edge; the handler is called exactly once on every
                path that does not leave through an early (pre-handler) reply (R-COUNT over the CFG's SCC DAG).
@@ -34,10 +35,9 @@ tests in K4) — one instance per method arm, keyed by the handler it calls:
   G-FLAG-EARLY (one aggregated instance) the replies sent before the handler runs (decode failure, missing
                path for a signal emitter) are also gated by the NoReplyExpected test.
 
-Not decided / dropped: the member NAME an arm is wired to (the extractor records no value for `match` string
-pattern constants; arms are identified by the handler they call, name tables are replaced by counts); that the
-reply body's type is the declared output type (type checker's business); interfaces the repository does not
-contain; hand-written Interface impls.
+Not decided / dropped: that the member name of an arm is the D-Bus name intended for its handler (naming convention
+of the macro; arms are keyed by the handler they call); that the reply body's type is the declared output type (type
+checker's business); interfaces the repository does not contain; hand-written Interface impls.
 """
 from .. import mir, callgraph
 from .. import lib_iface as L
@@ -84,7 +84,8 @@ def check_table_try(ctx, f, tag):
     ctx.floor("D-TABLE", tag + "dispatch sinks (interface call / spawn) in dispatch_method_call_try", len(sinks), 1)
     want = {NODE_GET_CHILD: "UnknownObject", NODE_IFACE_LOCK: "UnknownInterface"}
     seen = {}
-    for c, src, closures, vs, kind in L.none_handlers(f, body):
+    for nh in L.none_handlers(f, body):
+        src, vs = nh.src, nh.errors
         if src is None:
             continue
         for callee, variant in want.items():
@@ -95,25 +96,17 @@ def check_table_try(ctx, f, tag):
             other = {(a, v) for a, v in vs if a != L.FDO_ERROR}
             ctx.ob("D-TABLE", tag + "try:%s->%s" % (short(callee), variant), names == {variant} and not other,
                    "None from %s is mapped to %s" % (short(callee), sorted(names | {"%s::%s" % x for x in other}) or "nothing"),
-                   c.where)
-            # failure continuation: the `?` on the mapped result leaves before dispatching
-            br = [x for x in mir.calls(body) if x.is_("branch") and x.args and
-                  mir.origin(body, x.args[0])[0] == "call" and mir.origin(body, x.args[0])[1] is c]
+                   nh.where)
+            # failure continuation (`?` / the None arm) leaves with the error before dispatching
             okp = False
-            detail = "the mapped error is not propagated with `?`"
-            for x in br:
-                for sb, pl, adt, arms, oth in mir.discr_switches(body, f, "core::ops::control_flow::ControlFlow"):
-                    if pl[0] != x.dest[0]:
-                        continue
-                    brk = arms.get("Break", arms.get("1", oth))  # ControlFlow: Continue = 0, Break = 1
-                    reach = mir.reachable(body, [brk])
-                    resid = {y.b for y in mir.calls(body) if y.is_("from_residual")}
-                    leaves = not (reach & sinks)
-                    rets = [e for e in mir.exits(body) if e in mir.reachable(body, [brk], avoid=resid)]
-                    okp = leaves and not rets
-                    detail = ("error edge returns the error without dispatching" if okp else
-                              "error edge %s" % ("reaches the interface call" if not leaves else "can return without from_residual"))
-            ctx.ob("D-TABLE", tag + "try:%s-failure-leaves" % short(callee), okp, detail, c.where)
+            detail = "the mapped error does not leave the function (no `?` / returning arm)"
+            if nh.fail_start is not None:
+                reach = mir.reachable(body, [nh.fail_start])
+                leaves = not (reach & sinks)
+                okp = leaves and bool([e for e in mir.exits(body) if e in reach])
+                detail = ("error edge returns without dispatching" if okp else
+                          "error edge %s" % ("reaches the interface call" if not leaves else "does not return"))
+            ctx.ob("D-TABLE", tag + "try:%s-failure-leaves" % short(callee), okp, detail, nh.where)
     for callee, variant in want.items():
         ctx.floor("D-TABLE", tag + "None-handlers on %s in dispatch_method_call_try" % short(callee), seen.get(callee, 0), 1)
     return body, fam
@@ -418,11 +411,18 @@ def check_dispatcher(ctx, it, name, agg, used):
     arms = L.eq_arms(D)
     ikey = "%s::%s" % (it.key, name)
     fam = {b.id: b for b in L.kids(f, D)}
-    n_async = n_mut = 0
+    n_async = 0
+    mut_names, all_names = set(), set()
     for c, tt, ft, nm in arms:
         vs = L.ret_variants(D, tt, L.DISPATCH_RESULT)
+        ctx.ob("G-ROUTE", ikey + ":arm-name-readable", nm is not None,
+               "the member name matched by an arm is %s" % (repr(nm) if nm else "not in the facts"), c.where)
+        if nm is not None:
+            ctx.ob("G-ROUTE", "%s:arm(%s):matched-once" % (ikey, nm), nm not in all_names,
+                   "member `%s` is matched by one arm" % nm, c.where)
+            all_names.add(nm)
         if vs == {"RequiresMut"} and name == "call":
-            n_mut += 1
+            mut_names.add(nm)
             continue
         region = mir.region(D, tt)
         cors = [fam[i] for i in L.aggs_in(D, region, ("coroutine",)) if i in fam]
@@ -451,7 +451,7 @@ def check_dispatcher(ctx, it, name, agg, used):
         vs = L.ret_variants(D, 0, L.DISPATCH_RESULT)
         ctx.ob("G-ROUTE", ikey + ":unmatched->NotFound", vs == {"NotFound"},
                "interface without %s arms returns %s" % (name, sorted(vs)), D.where)
-    return n_async, n_mut, len(arms)
+    return n_async, mut_names, all_names
 
 
 def generated(ctx, its):
@@ -468,8 +468,8 @@ def generated(ctx, its):
         used = {}
         a1, m1, t1 = check_dispatcher(ctx, it, "call", agg, used)
         a2, m2, t2 = check_dispatcher(ctx, it, "call_mut", agg, used)
-        ctx.ob("G-ROUTE", it.key + ":RequiresMut-arms=call_mut-arms", m1 == t2,
-               "%d arm(s) of call return RequiresMut, call_mut matches %d member(s)" % (m1, t2), it.where)
+        ctx.ob("G-ROUTE", it.key + ":RequiresMut-names=call_mut-names", m1 == t2,
+               "call answers RequiresMut for %s; call_mut matches %s" % (sorted(map(str, m1)), sorted(map(str, t2))), it.where)
     ctx.floor("G-ROUTE", "generated Interface impls analysed", n_if, 4)
     ctx.floor("G-COUNT", "generated method arms analysed", agg.arms, 10)
     # ---- aggregated instances (one macro template each)
@@ -502,7 +502,7 @@ def run(ctx):
         "arm's coroutine shows <=1 reply per path, >=1 unless the flag edge is taken, none after it, exactly one handler "
         "call; the replied value derives from the handler result; decode failure replies once and skips the handler; "
         "call/call_mut arm tables agree (Async / RequiresMut / NotFound).")
-    ctx.not_decided = ("which member name an arm answers to (pattern constants are not in the facts; arms are keyed by handler); "
+    ctx.not_decided = ("that an arm's member name is the name intended for its handler (macro naming convention); "
                        "interfaces not compiled in the repository; hand-written Interface impls; behaviour of Connection::send.")
     ctx.assumptions.append("Body::deserialize reports failures as zbus::Error::Variant (the arm inspected by G-ARGS-NAME)")
     L.prefetch(ctx, ["K1", "K4"])
